@@ -44,7 +44,8 @@ def profile():
 
 
 LIT_POOL = {
-    'String': ['', 'a', 'abc', 'x y', 'user'],
+    'String': ['', 'a', 'abc', 'x y', 'user', 'C:\\temp', 'C:\\new', 'q"uote', 'tab\there', 'nl\nx', 'two\\\\back',
+               'end\\', '\\', 'a\\"b'],
     'Boolean': [True, False],
     'Int': [0, 1, -1, 42, 7],
     'Float': [0.0, 0.5, -1.5, 2.25, 1e10],
@@ -204,8 +205,6 @@ def run_shard(tier, seed, idx, n, res, tmp):
                 lit = rnd.choice(pool + [None])
                 return fx.Pred(f.name, rnd.choice(['=', '!=']), lit)
             tree = fx.random_expr(rnd, atom, rnd.randint(0, 3))
-            if any(isinstance(a.lit, str) and ('"' in a.lit or '\\' in a.lit) for a in fx.atoms(tree)):
-                continue
             text = fx.render(tree, rnd)
             replay = {'workload': 'cli_filter', 'expr': text, 'files': files}
             exp = {(r_.ns, r_.name, r_.version) for r_ in routes
@@ -284,7 +283,7 @@ def run_shard(tier, seed, idx, n, res, tmp):
             lit = rnd.choice(vals + [None])
             if attr_kind(f) == 'Float' and lit is not None:
                 lit = float(lit)
-            if not (isinstance(lit, str) and ('"' in lit or '\\' in lit)):
+            if True:
                 tree = fx.Pred(f.name, '=', lit)
                 exp = {(r_.ns, r_.name, r_.version) for r_ in routes if r_.ns in sub and
                        fx.evaluate(tree, {k_: v for k_, v in route_attr_values(m, r_).items()
